@@ -303,16 +303,18 @@ def _(self, data: ByteArray, offset: Nat, length: Nat) -> Bytes:
 
 
 @contract("BitString.decode_primitive_contents", props=["C04", "C01", "C08"])
-def _(self, data: ByteArray, offset: Nat, length: Nat):
+def _(self, data: ByteArray, offset: Nat, length: Nat) -> Tup(Bytes, Int):
     # X.690 8.6.2: initial octet = number of unused bits of the last octet
     requires(offset + length <= len(data))
     raises_iff(IndexError, offset >= len(data))
     ensures(result[1] == 8 * (length - 1) - data[offset] and result[0] == data[offset + 1:offset + length])
 
 
-@contract("StringType.decode_constructed_segments", props=["C04", "C01"], for_class="any", bounded="segment lists of length 0..3")
+@contract("StringType.decode_constructed_segments", props=["C04", "C01"], for_class="*", bounded="segment lists of length 0..3")
 def _(self, segments: ListOf(Bytes, 3)) -> Str:
     # X.690 8.21.6: the value is the concatenation of the segments' octets, decoded as a whole (a character may be
     # split across segments).  BOUNDED in the number of segments (0..3), unbounded in their contents.
-    raises(UnicodeDecodeError)
+    raises_iff(UnicodeDecodeError, not decodable(concat_all(segments), self.ENCODING))
+    native(examples=[{'segments': [b'\xc3', b'\xa9']}, {'segments': [b'a\xe2\x82', b'\xac', b'b']},
+                     {'segments': [b'\x00', b'\xe9']}, {'segments': [b'\x00\x00\x00', b'\xe9']}])
     ensures(result == text_decode(concat_all(segments), self.ENCODING))
